@@ -34,13 +34,26 @@ func propC02(c *Ctx, r *Report) {
 	cat := buildSQLCat(c)
 	r.Extra["sql_statements"] = len(cat.Stmts)
 	r.Extra["sql_tables"] = len(cat.Tables)
-	r.rule("C02-R1/writes-on-block-tx", 25, "every write statement reachable from the block roots is issued on the block's *sql.Tx")
+	r.rule("C02-R1/writes-on-block-tx", 15, "every write statement reachable from the block roots is issued on the block's *sql.Tx")
 	ruleBlockWritesOnTx(c, cat, r, "C02-R1/writes-on-block-tx")
 	r.rule("C02-R2/tx-typestate", 10, "typestate of the block transaction in the sync root")
 	ruleTxTypestate(c, r, "C02-R2/tx-typestate")
-	r.rule("C02-R3/tx-confinement", 4, "transaction control only in the sync root; *sql.Tx never escapes")
+	heightWriters(c, newSharedAnalysis(c), r, "C02-R2/tx-typestate")
+	r.rule("C02-R3/tx-confinement", 3, "transaction control only in the sync root; *sql.Tx never escapes")
 	ruleTxConfinement(c, r, "C02-R3/tx-confinement")
 
+	// R7: restart equivalence of the one piece of derived state block processing keeps in memory (shared with C09)
+	windowSize(c, r, "C02-R7/restart-window")
+	// R8: a failed statement fails the block - in the executors between the sync root and the statements no error
+	// is turned into a recorded status or dropped (same engine as C10, scoped to the executors)
+	r.rule("C02-R8/failure-aborts-block", 8, "executor errors reach the sync root's rollback")
+	{
+		scope := map[*ssa.Function]bool{} // the root's own handling is R2; its two dropped NullifyBurnAddress results are recorded under C10
+		for _, n := range []string{"node.Pegnetd.ApplyTransactionBlock", "node.Pegnetd.ApplyTransactionBatchesInHolding", "node.Pegnetd.recordBatch", "node.Pegnetd.recordPegnetRequests"} {
+			scope[c.fn(n)] = true
+		}
+		runErrflow(c, computeEffects(c), r, scope, "C02-R8/failure-aborts-block", false)
+	}
 	// R4: InsertSynced chain
 	r.rule("C02-R4/height-record", 4, "InsertSynced writes pn_sync_version and pn_metadata on the same tx, errors propagated")
 	is := c.fn("pegnet.Pegnet.InsertSynced")
